@@ -197,11 +197,26 @@ def showTail : Tail → String
       " opts=" ++ "|".intercalate (sortStrs (fl.map (fun f => strOf f ++ ":-:m=-"))) ++ " unk=break"
   | .raw => "tail=raw opts=- unk=-"
 
+def showCond (tbl : List OptSpec) : Cond → String
+  | .has i => match tbl[i]? with
+    | some o => strOf o.kw
+    | none => s!"?{i}"
+  | .and a b => "(" ++ showCond tbl a ++ "&&" ++ showCond tbl b ++ ")"
+  | .or a b => "(" ++ showCond tbl a ++ "||" ++ showCond tbl b ++ ")"
+  | .countGt is n => "count(" ++ ",".intercalate (is.map fun i => match tbl[i]? with | some o => strOf o.kw | none => s!"?{i}") ++ s!")>{n}"
+
+def showChecks (d : GenDesc) : String :=
+  let tbl := match d.tail with
+    | .scan t _ => t
+    | _ => []
+  if d.checks.isEmpty then "-" else "|".intercalate (d.checks.map fun c => showCond tbl c.1 ++ ":" ++ hexOfBytes c.2.text)
+
 def showRow (r : ShapeRow) : String :=
   s!"name={strOf r.name} arity={showArity r.arity} aerr={hexOfBytes r.arityErr} " ++
   s!"ctor={"|".intercalate (sortStrs (r.gen.ctors.map strOf))} slots={showArgs r.gen.pre} opt={showArgs r.gen.opt} " ++
   showTail r.gen.tail ++
-  " flits=" ++ (if r.gen.finLits.isEmpty then "-" else ";".intercalate (sortStrs (r.gen.finLits.map (fun l => hexOfBytes l.text))))
+  " flits=" ++ (if r.gen.finLits.isEmpty then "-" else ";".intercalate (sortStrs (r.gen.finLits.map (fun l => hexOfBytes l.text)))) ++
+  " checks=" ++ showChecks r.gen
 
 /-! ### scripts -/
 
